@@ -3,7 +3,7 @@
 From Coq Require Import List NArith ZArith Bool String Ascii Lia.
 From Cfg Require Import Model.RStr Model.LuaNum Model.Redis Model.RedisScripts Model.MapApi23 Model.MemMap23
                         Model.RedisMapBroker Model.RedisMapScripts
-                        Proofs.C18Lib Proofs.C18Redis Proofs.C23Redis Proofs.C23Lib Proofs.C23Add Proofs.C23Read Proofs.C23Add2 Proofs.C23Add3.
+                        Proofs.C18Lib Proofs.C18Redis Proofs.C23Redis Proofs.C23Lib Proofs.C23Add Proofs.C23Read Proofs.C23Add2 Proofs.C23Add3 Proofs.C23Add4 Proofs.C23Idem.
 From Cfg Require Proofs.C18Stream Proofs.C18StreamP Proofs.C18StreamH Proofs.C18StreamQ.
 Import ListNotations.
 Open Scope string_scope.
@@ -18,12 +18,20 @@ Definition nonce_ok (e : string) : bool := negb (has_char ":" e).
 Definition exp_okb (exp : option (N * string)) : bool :=
   match exp with Some (eo, ee) => (negb (String.eqb ee "") && (eo <? 9007199254740992)%N)%bool | None => true end.
 
-(* an unkeyed Publish carries neither KeyMode nor ExpectedPosition; a keyed one may carry any KeyMode and an
-   ExpectedPosition with a non-empty epoch (finding map-cas-empty-epoch) and an offset below 2^53 *)
-Definition popts_ok (key : string) (o : mpopts) : bool :=
-  (String.eqb (mp_idem o) "" && (mp_ver o =? 0)%N && (0 <=? mp_score o)%Z &&
-   (if String.eqb key "" then String.eqb (mp_mode o) "" && match mp_exp o with None => true | Some _ => false end
+(* an unkeyed Publish carries neither version, KeyMode nor ExpectedPosition; a keyed one may carry any version below
+   2^53 (finding map-version-ge-2^53) with any version epoch, any KeyMode and an ExpectedPosition with a non-empty
+   epoch (finding map-cas-empty-epoch) and an offset below 2^53 *)
+Definition popts_core (key : string) (o : mpopts) : bool :=
+  ((mp_ver o <? 9007199254740992)%N && (0 <=? mp_score o)%Z &&
+   (if String.eqb key "" then (mp_ver o =? 0)%N && String.eqb (mp_mode o) "" && match mp_exp o with None => true | Some _ => false end
     else exp_okb (mp_exp o)))%bool.
+
+(* [ai]: idempotency keys are allowed in this run (and then it contains no Clear: finding map-clear-idempotency) *)
+Definition idem_okb (ai : bool) (idem : string) (ttl : Z) : bool :=
+  (String.eqb idem "" || (ai && (0 <=? ttl)%Z && (ttl <? 2147483648)%Z))%bool.
+
+Definition popts_ok (ai : bool) (key : string) (o : mpopts) : bool :=
+  (idem_okb ai (mp_idem o) (mp_idemttl o) && popts_core key o)%bool.
 
 Definition ropts_ok (o : mropts) : bool := (String.eqb (mr_idem o) "" && exp_okb (mr_exp o))%bool.
 
@@ -33,9 +41,9 @@ Definition since_okb (top : N) (since : option (N * string)) (reverse : bool) : 
   | Some (so, _) => if reverse then ((2 <=? so) && (so <=? top + 1))%N else (so + 1 <? 18446744073709551616)%N
   end.
 
-Definition op_ok (m : mmstate) (o : mop) : bool :=
+Definition op_ok (ai : bool) (m : mmstate) (o : mop) : bool :=
   match o with
-  | MPublish ch key po nonce now => (popts_ok key po && nonce_ok nonce)%bool
+  | MPublish ch key po nonce now => (popts_ok ai key po && nonce_ok nonce)%bool
   | MRemove ch key ro nonce now =>
       (ropts_ok ro && negb (String.eqb key "") && match sfind ch (mm_chans m) with Some _ => true | None => false end)%bool
   | MReadStream ch since limit reverse nr nm =>
@@ -50,14 +58,14 @@ Definition op_ok (m : mmstate) (o : mop) : bool :=
        | Some c => negb (String.eqb key "") || negb (limit =? 0)%Z || negb (rev_bad rev_ (ch_epoch c))
        | None => String.eqb key "" && match rev_ with None => true | Some _ => false end
        end)%bool
-  | MClear _ => true
+  | MClear _ => negb ai
   | MTick _ | MCleanup _ _ | MStats _ => false
   end.
 
-Fixpoint run_ok (cf : mcfg) (m : mmstate) (ops : list mop) : bool :=
+Fixpoint run_ok (cf : mcfg) (ai : bool) (m : mmstate) (ops : list mop) : bool :=
   match ops with
   | [] => true
-  | o :: r => op_ok m o && run_ok cf (fst (mm_step cf m o)) r
+  | o :: r => op_ok ai m o && run_ok cf ai (fst (mm_step cf m o)) r
   end.
 
 Definition op_chan (o : mop) : list string :=
@@ -66,6 +74,12 @@ Definition op_chan (o : mop) : list string :=
   | MTick _ | MCleanup _ _ => []
   end.
 Definition chans (ops : list mop) : list string := flat_map op_chan ops.
+Definition op_idem (o : mop) : list (string * string) :=
+  match o with
+  | MPublish ch _ po _ _ => if String.eqb (mp_idem po) "" then [] else [(ch, mp_idem po)]
+  | _ => []
+  end.
+Definition idems (ops : list mop) : list (string * string) := flat_map op_idem ops.
 
 (* ================= the relation ================= *)
 Definition chan_rel (rs : rstate) (ch : string) (oc : option mchan) : Prop :=
@@ -77,21 +91,65 @@ Definition chan_rel (rs : rstate) (ch : string) (oc : option mchan) : Prop :=
       sview rs (k_stream ch) (strm_view (ch_epoch c) g (ch_top c)) /\
       hview rs (k_state ch) (state_view (ch_epoch c) (ch_state c)) /\
       hview rs (k_smeta ch) smh /\ smeta_cond (state_view (ch_epoch c) (ch_state c)) smh (ch_epoch c) /\
-      getk rs (k_expire ch) = None
+      getk rs (k_expire ch) = None /\ ver_rel (hash_or_empty smh) (ch_state c)
   end.
 
 Definition chan_inv (n : N) (c : mchan) : Prop :=
   has_char ":" (ch_epoch c) = false /\ (ch_top c <= n)%N /\ contigT (ch_items c) 1 (ch_top c) /\
-  (forall kv, In kv (ch_state c) -> entry_ok (snd kv)).
+  (forall kv, In kv (ch_state c) -> entry_ok (snd kv)) /\
+  (forall kv, In kv (ch_state c) -> (me_ver (snd kv) < 9007199254740992)%N).
+
+(* idempotency results: the pairs (channel, idempotency key) of the run *)
+Definition cache_rel (rs : rstate) (m : mmstate) (ch k : string) : Prop :=
+  match sfind (idem_key ch k) (mm_idem m) with
+  | None => getk rs (k_result ch k) = None
+  | Some (off, ep, exp) => (0 < exp)%N /\ (off < BOUND)%N /\ res_view rs (k_result ch k) (Some (off, ep))
+  end.
+
+Record res_ok (P : list (string * string)) : Prop := mkResOk {
+  P_res : forall p q, In p P -> In q P -> k_result (fst p) (snd p) = k_result (fst q) (snd q) -> p = q;
+  P_idem : forall p q, In p P -> In q P -> idem_key (fst p) (snd p) = idem_key (fst q) (snd q) -> p = q
+}.
+Definition pair_eqb (a b : string * string) : bool := (String.eqb (fst a) (fst b) && String.eqb (snd a) (snd b))%bool.
+Definition res_okb (P : list (string * string)) : bool :=
+  forallb (fun p => forallb (fun q => pair_eqb p q ||
+                                       (negb (String.eqb (k_result (fst p) (snd p)) (k_result (fst q) (snd q)))
+                                        && negb (String.eqb (idem_key (fst p) (snd p)) (idem_key (fst q) (snd q))))) P) P.
+Lemma res_okb_sound P : res_okb P = true -> res_ok P.
+Proof.
+  unfold res_okb. intros H. rewrite forallb_forall in H.
+  assert (Hp : forall p q, In p P -> In q P -> p = q \/ (k_result (fst p) (snd p) <> k_result (fst q) (snd q)
+                                                        /\ idem_key (fst p) (snd p) <> idem_key (fst q) (snd q))).
+  { intros p q Hp Hq. specialize (H p Hp). rewrite forallb_forall in H. specialize (H q Hq).
+    apply orb_true_iff in H as [H|H].
+    - left. unfold pair_eqb in H. apply andb_true_iff in H as [A B]. apply String.eqb_eq in A, B. destruct p, q; cbn in *; congruence.
+    - right. apply andb_true_iff in H as [A B]. apply negb_true_iff in A, B. apply String.eqb_neq in A, B. split; assumption. }
+  constructor; intros p q Hp' Hq E; destruct (Hp p q Hp' Hq) as [|[A B]]; try assumption; contradiction.
+Qed.
+
+Lemma k_result_not_chan ch k c : ~ In (k_result ch k) (chan_keys c).
+Proof. unfold chan_keys. cbn [In]. intros [E|[E|[E|[E|[E|[]]]]]]; discriminate E. Qed.
+Lemma k_result_cleanup ch k : k_cleanup <> k_result ch k. Proof. discriminate. Qed.
+Lemma k_result_ne ch k : k_result ch k <> "". Proof. discriminate. Qed.
+
+Section WithPairs.
+Variable P : list (string * string).
 
 Record R (U : list string) (n : N) (rs : rstate) (m : mmstate) : Prop := mkRel {
   R_chan : forall ch, In ch U -> chan_rel rs ch (sfind ch (mm_chans m));
   R_inv : forall ch c, sfind ch (mm_chans m) = Some c -> chan_inv n c;
-  R_cleanup : getk rs k_cleanup = None      (* no key TTL in the domain: nothing is ever registered for cleanup *)
+  R_cleanup : getk rs k_cleanup = None;     (* no key TTL in the domain: nothing is ever registered for cleanup *)
+  R_now : mm_now m = 0%N;                   (* no time passes in the domain: cached results never expire *)
+  R_cache : forall ch k, In (ch, k) P -> cache_rel rs m ch k
 }.
 
+Lemma cache_rel_frame rs rs' m m' ch k :
+  getk rs' (k_result ch k) = getk rs (k_result ch k) -> sfind (idem_key ch k) (mm_idem m') = sfind (idem_key ch k) (mm_idem m) ->
+  cache_rel rs m ch k -> cache_rel rs' m' ch k.
+Proof. intros H1 H2. unfold cache_rel, res_view. rewrite H1, H2. auto. Qed.
+
 Lemma chan_inv_mono n n' c : (n <= n')%N -> chan_inv n c -> chan_inv n' c.
-Proof. intros H (A & B & C & D). split; [assumption|]. split; [lia|]. split; assumption. Qed.
+Proof. intros H (A & B & C & D & E). split; [assumption|]. split; [lia|]. split; [assumption|]. split; assumption. Qed.
 
 Lemma hview_eq rs rs' k oh : getk rs' k = getk rs k -> hview rs k oh -> hview rs' k oh.
 Proof. intros E. unfold hview. rewrite E. auto. Qed.
@@ -102,14 +160,14 @@ Lemma chan_rel_frame rs rs' ch oc :
   (forall k, In k (chan_keys ch) -> getk rs' k = getk rs k) -> chan_rel rs ch oc -> chan_rel rs' ch oc.
 Proof.
   intros F. destruct oc as [c|]; cbn [chan_rel].
-  - intros (h & g & smh & H1 & H2 & H3 & H4 & H5 & H6 & H7 & H8 & H9). exists h, g, smh.
+  - intros (h & g & smh & H1 & H2 & H3 & H4 & H5 & H6 & H7 & H8 & H9 & H10). exists h, g, smh.
     assert (Fm := F (k_meta ch)). assert (Fs := F (k_stream ch)). assert (Ft := F (k_state ch)).
     assert (Fsm := F (k_smeta ch)). assert (Fe := F (k_expire ch)). unfold chan_keys in *. cbn [In] in *.
     split; [apply (hview_eq rs); [apply Fm; tauto | assumption]|]. split; [assumption|]. split; [assumption|].
     split; [assumption|]. split; [apply (sview_eq rs); [apply Fs; tauto | assumption]|].
     split; [apply (hview_eq rs); [apply Ft; tauto | assumption]|].
     split; [apply (hview_eq rs); [apply Fsm; tauto | assumption]|]. split; [assumption|].
-    rewrite Fe by tauto. assumption.
+    split; [rewrite Fe by tauto; assumption | assumption].
   - intros H k Hk. rewrite F by assumption. apply H. assumption.
 Qed.
 
@@ -118,9 +176,12 @@ Lemma R_update U n n' rs m rs' m' c oc' :
   frame (chan_keys c) rs rs' ->
   (forall ch, sfind ch (mm_chans m') = if String.eqb ch c then oc' else sfind ch (mm_chans m)) ->
   chan_rel rs' c oc' -> (forall c', oc' = Some c' -> chan_inv n' c') ->
+  mm_idem m' = mm_idem m -> mm_now m' = mm_now m ->
   R U n' rs' m'.
 Proof.
-  intros HK Hc HR Hn [F _] Hch Hrel Hinv. constructor; [| |rewrite F by apply k_cleanup_not_chan; apply (R_cleanup _ _ _ _ HR)].
+  intros HK Hc HR Hn [F _] Hch Hrel Hinv Hid Hnw.
+  constructor; [| |rewrite F by apply k_cleanup_not_chan; apply (R_cleanup _ _ _ _ HR) | rewrite Hnw; apply (R_now _ _ _ _ HR)
+               | intros ch k Hk; apply (cache_rel_frame rs _ m); [apply F, k_result_not_chan | rewrite Hid; reflexivity | apply (R_cache _ _ _ _ HR); assumption]].
   - intros ch Hin. rewrite Hch. destruct (String.eqb ch c) eqn:E.
     + apply String.eqb_eq in E. subst. exact Hrel.
     + apply String.eqb_neq in E. apply (chan_rel_frame rs); [|apply (R_chan _ _ _ _ HR); assumption].
@@ -141,16 +202,16 @@ Lemma pre_state U n rs m ch nonce :
      rv_state v = state_view (ch_epoch c0) (ch_state c0) /\
      smeta_cond (rv_state v) (rv_smeta v) (ch_epoch c0) /\
      rv_stream v = strm_view (ch_epoch c0) g (ch_top c0) /\ map fst g = ch_items c0 /\ g_inv g (ch_top c0) /\
-     chan_inv n c0.
+     ver_rel (hash_or_empty (rv_smeta v)) (ch_state c0) /\ chan_inv n c0.
 Proof.
   intros HR Hin Hn. unfold c0_of. pose proof (R_chan _ _ _ _ HR ch Hin) as Hrel.
   destruct (sfind ch (mm_chans m)) as [c|] eqn:E.
-  - destruct Hrel as (h & g & smh & H1 & H2 & H3 & H4 & H5 & H6 & H7 & H8 & H9).
+  - destruct Hrel as (h & g & smh & H1 & H2 & H3 & H4 & H5 & H6 & H7 & H8 & H9 & H10).
     exists (mkRV (Some h) (state_view (ch_epoch c) (ch_state c)) smh (strm_view (ch_epoch c) g (ch_top c))), g.
     unfold views, meta_cond. cbn [rv_meta rv_state rv_smeta rv_stream].
     split; [split; [assumption|]; split; [assumption|]; split; [assumption|]; split; assumption|].
     split; [assumption|]. split; [reflexivity|]. split; [assumption|]. split; [reflexivity|].
-    split; [assumption|]. split; [assumption|]. apply (R_inv _ _ _ _ HR ch c E).
+    split; [assumption|]. split; [assumption|]. split; [assumption|]. apply (R_inv _ _ _ _ HR ch c E).
   - exists (mkRV None None None None), [].
     unfold views, meta_cond, chan_keys in *. cbn [rv_meta rv_state rv_smeta rv_stream new_chan ch_epoch ch_top ch_state ch_items].
     cbn [chan_rel In] in Hrel. cbn [hview sview].
@@ -158,10 +219,10 @@ Proof.
     cbn [In] in Hk.
     split; [split; [apply Hk; auto 10|]; split; [apply Hk; auto 10|]; split; [apply Hk; auto 10|]; split; apply Hk; auto 10|].
     split; [split; reflexivity|]. split; [reflexivity|]. split; [left; split; reflexivity|]. split; [reflexivity|].
-    split; [reflexivity|]. split; [intros x []|].
+    split; [reflexivity|]. split; [intros x []|]. split; [intros key; reflexivity|].
     unfold chan_inv, new_chan. cbn [ch_epoch ch_top ch_items ch_state].
     split; [unfold nonce_ok in Hn; apply negb_true_iff in Hn; exact Hn|]. split; [apply N.le_0_l|].
-    split; [apply contigT_nil; reflexivity | intros kv []].
+    split; [apply contigT_nil; reflexivity|]. split; intros kv [].
 Qed.
 
 Lemma stream_cond_of v epoch g top items :
@@ -204,30 +265,35 @@ Proof.
 Qed.
 
 Lemma hub_add_gen cf m ch key o nonce :
-  has_stream cf = true -> mp_ver o = 0%N ->
+  has_stream cf = true ->
   let c0 := c0_of m ch nonce in
   (Z.of_nat (List.length (ch_items c0)) < mc_size cf)%Z ->
   let cur := sfind key (ch_state c0) in
   let keyed := negb (String.eqb key "") in
   exists m1,
     (forall ch', sfind ch' (mm_chans m1) = if String.eqb ch' ch then Some c0 else sfind ch' (mm_chans m)) /\
+    mm_idem m1 = mm_idem m /\ mm_now m1 = mm_now m /\
+    if (keyed && ver_dec (mp_ver o) (mp_vep o) cur)%bool
+    then hub_add cf m ch key o nonce = (m1, MUpd (ch_top c0) (ch_epoch c0) true "version" None) else
     match (if keyed then km_decision (mp_mode o) (is_some cur) else None) with
     | Some r => hub_add cf m ch key o nonce = (m1, MUpd (ch_top c0) (ch_epoch c0) true r None)
     | None =>
         match (if keyed then cas_dec (ch_epoch c0) (mp_exp o) cur else None) with
         | Some cp => hub_add cf m ch key o nonce = (m1, MUpd (ch_top c0) (ch_epoch c0) true "position_mismatch" cp)
         | None =>
-            exists m' ver vep,
+            exists m',
               hub_add cf m ch key o nonce = (m', MUpd (ch_top c0 + 1) (ch_epoch c0) false "" None) /\
               (forall ch', sfind ch' (mm_chans m') =
                  if String.eqb ch' ch
                  then Some (mkMCh (ch_top c0 + 1) (ch_epoch c0) (ch_items c0 ++ [((ch_top c0 + 1)%N, key, mp_data o, false)])
-                                  (state_after key (mkME (ch_top c0 + 1) (mp_data o) (mp_score o) ver vep) (ch_state c0)))
-                 else sfind ch' (mm_chans m))
+                                  (state_after key (mkME (ch_top c0 + 1) (mp_data o) (mp_score o)
+                                                         (ver_after (mp_ver o) cur) (vep_after (mp_ver o) (mp_vep o) cur))
+                                               (ch_state c0)))
+                 else sfind ch' (mm_chans m)) /\ mm_idem m' = mm_idem m /\ mm_now m' = mm_now m
         end
     end.
 Proof.
-  intros Hhs Hver c0 Hsz cur keyed.
+  intros Hhs c0 Hsz cur keyed.
   unfold hub_add.
   set (m1 := match sfind ch (mm_chans m) with Some c => (m, c) | None => (set_chan m ch (new_chan nonce), new_chan nonce) end).
   assert (Em1 : m1 = (fst m1, c0)).
@@ -238,9 +304,19 @@ Proof.
     - apply sfind_set_chan. }
   assert (Hm1 : forall c2 ch', sfind ch' (mm_chans (set_chan (fst m1) ch c2)) = if String.eqb ch' ch then Some c2 else sfind ch' (mm_chans m)).
   { intros c2 ch'. rewrite sfind_set_chan. destruct (String.eqb ch' ch) eqn:E; [reflexivity|]. rewrite Hm0, E. reflexivity. }
-  exists (fst m1). split; [exact Hm0|].
-  rewrite Em1. rewrite Hhs, Hver. cbn [andb N.ltb N.compare]. rewrite andb_false_r. cbn iota.
-  fold cur. fold keyed. rewrite km_decision_mem.
+  assert (Hid1 : mm_idem (fst m1) = mm_idem m /\ mm_now (fst m1) = mm_now m).
+  { unfold m1. destruct (sfind ch (mm_chans m)); split; reflexivity. }
+  exists (fst m1). split; [exact Hm0|]. split; [apply Hid1|]. split; [apply Hid1|].
+  rewrite Em1. rewrite Hhs. fold cur. fold keyed.
+  assert (Ever : (true && keyed && (0 <? mp_ver o)%N &&
+                  match cur with
+                  | Some e => (String.eqb (mp_vep o) "" || String.eqb (mp_vep o) (me_vep e)) && (mp_ver o <=? me_ver e)%N
+                  | None => false
+                  end)%bool = (keyed && ver_dec (mp_ver o) (mp_vep o) cur)%bool).
+  { unfold ver_dec. cbn [andb]. rewrite andb_assoc. reflexivity. }
+  rewrite Ever.
+  destruct (keyed && ver_dec (mp_ver o) (mp_vep o) cur)%bool; [reflexivity|].
+  rewrite km_decision_mem.
   destruct (if keyed then km_decision (mp_mode o) (is_some cur) else None) as [r|]; [reflexivity|].
   assert (Hcas : (if keyed then cas_check (snd (chan_pos c0)) (mp_exp o) cur else None)
                  = (if keyed then cas_dec (ch_epoch c0) (mp_exp o) cur else None)).
@@ -249,10 +325,11 @@ Proof.
   destruct (if keyed then cas_dec (ch_epoch c0) (mp_exp o) cur else None) as [cp|]; [reflexivity|].
   unfold stream_add. cbv beta iota zeta. cbn [ch_items ch_top ch_epoch ch_state fst snd].
   rewrite !skipn_fit by (rewrite app_length; cbn [List.length]; lia).
-  unfold state_after. subst keyed.
+  unfold state_after, ver_after, vep_after. subst keyed.
   destruct (String.eqb key "") eqn:Ek; cbn [negb].
-  - eexists. exists 0%N, "". split; [reflexivity|]. intros ch'. apply Hm1.
-  - cbn [N.eqb]. fold cur. destruct cur as [e|]; eexists; eexists; eexists; (split; [reflexivity|]); intros ch'; apply Hm1.
+  - eexists. split; [reflexivity|]. split; [intros ch'; apply Hm1|]. cbn [set_chan mm_idem mm_now]. exact Hid1.
+  - fold cur. destruct (mp_ver o =? 0)%N; destruct cur as [e|]; eexists; (split; [reflexivity|]);
+      (split; [intros ch'; apply Hm1|]); cbn [set_chan mm_idem mm_now]; exact Hid1.
 Qed.
 
 (* ================= steps ================= *)
@@ -273,7 +350,8 @@ Proof. split; [intros; apply getk_clear_outbox | reflexivity]. Qed.
 
 Lemma R_clear U n rs m : R U n rs m -> R U n (clear_outbox rs) m.
 Proof.
-  intros HR. constructor; [|apply (R_inv _ _ _ _ HR)|rewrite getk_clear_outbox; apply (R_cleanup _ _ _ _ HR)].
+  intros HR. constructor; [|apply (R_inv _ _ _ _ HR)|rewrite getk_clear_outbox; apply (R_cleanup _ _ _ _ HR)|apply (R_now _ _ _ _ HR)
+                          |intros ch k Hk; apply (cache_rel_frame rs _ m); [apply getk_clear_outbox | reflexivity | apply (R_cache _ _ _ _ HR); assumption]].
   intros ch Hin. apply (chan_rel_frame rs); [intros; apply getk_clear_outbox | apply (R_chan _ _ _ _ HR); assumption].
 Qed.
 
@@ -318,10 +396,10 @@ Lemma chan_rel_after rs' ch epoch top g mh' sth smh' items state p sc size :
   hash_ok mh' epoch (top + 1) 0 "" ->
   sth = state_view epoch state -> smeta_cond sth smh' epoch ->
   map fst g = items -> g_inv g top -> off_of p = (top + 1)%N -> (0 <= sc)%Z ->
-  (Z.of_nat (List.length g) < size)%Z ->
+  (Z.of_nat (List.length g) < size)%Z -> ver_rel (hash_or_empty smh') state ->
   chan_rel rs' ch (Some (mkMCh (top + 1) epoch (items ++ [p])%list state)).
 Proof.
-  intros (Vm & Vs & Vsm & Vst & Ve) Hh Est Hsm Hg Hgi Hp Hsc Hsz. cbn [rv_meta rv_state rv_smeta rv_stream] in *.
+  intros (Vm & Vs & Vsm & Vst & Ve) Hh Est Hsm Hg Hgi Hp Hsc Hsz Hvr. cbn [rv_meta rv_state rv_smeta rv_stream] in *.
   cbn [chan_rel ch_epoch ch_top ch_items ch_state].
   exists mh', (g ++ [(p, sc)])%list, smh'.
   split; [assumption|]. split; [assumption|].
@@ -332,7 +410,7 @@ Proof.
     rewrite trim_approx_id in Vst by (rewrite app_length, map_length; cbn [List.length]; lia).
     replace (genc epoch (p, sc)) with (sentry_of (top + 1) epoch (pb (snd (fst (fst p))) (snd (fst p)) (snd p) sc)); [exact Vst|].
     unfold genc, sentry_of, g_off. cbn [fst snd]. rewrite Hp. reflexivity. }
-  split; [rewrite <- Est; assumption|]. split; [assumption|]. split; [rewrite <- Est; assumption | assumption].
+  split; [rewrite <- Est; assumption|]. split; [assumption|]. split; [rewrite <- Est; assumption|]. split; assumption.
 Qed.
 
 Lemma zdec_nonneg z : (0 <= z)%Z -> zdec z = dec (Z.to_N z).
@@ -381,13 +459,15 @@ Lemma R_after_suppress U n rs0 m st1 m1 ch nonce h1 v g :
   let c0 := c0_of m ch nonce in
   views rs0 ch v -> rv_state v = state_view (ch_epoch c0) (ch_state c0) ->
   smeta_cond (rv_state v) (rv_smeta v) (ch_epoch c0) ->
-  rv_stream v = strm_view (ch_epoch c0) g (ch_top c0) -> map fst g = ch_items c0 -> g_inv g (ch_top c0) -> chan_inv n c0 ->
+  rv_stream v = strm_view (ch_epoch c0) g (ch_top c0) -> map fst g = ch_items c0 -> g_inv g (ch_top c0) ->
+  ver_rel (hash_or_empty (rv_smeta v)) (ch_state c0) -> chan_inv n c0 ->
   hview st1 (k_meta ch) (Some h1) -> hash_ok h1 (ch_epoch c0) (ch_top c0) 0 "" -> frame [k_meta ch] rs0 st1 ->
   (forall ch', sfind ch' (mm_chans m1) = if String.eqb ch' ch then Some c0 else sfind ch' (mm_chans m)) ->
+  mm_idem m1 = mm_idem m -> mm_now m1 = mm_now m ->
   R U (n + 1) (clear_outbox st1) m1.
 Proof.
-  intros HK Hin HR0 c0 (Vm & Vs & Vsm & Vst & Ve) Est Hsmc Estr Hg Hgi Hinv Vm1 Hh1 F1 Hch.
-  eapply (R_update U n (n + 1) rs0 m _ m1 ch _ HK Hin HR0); [lia | | exact Hch | |].
+  intros HK Hin HR0 c0 (Vm & Vs & Vsm & Vst & Ve) Est Hsmc Estr Hg Hgi Hvr Hinv Vm1 Hh1 F1 Hch Hid Hnw.
+  eapply (R_update U n (n + 1) rs0 m _ m1 ch _ HK Hin HR0); [lia | | exact Hch | | | exact Hid | exact Hnw].
   - eapply frame_trans; [eapply frame_weaken; [|exact F1]; ck | apply frame_clear].
   - apply (chan_rel_frame st1); [intros; apply getk_clear_outbox|].
     cbn [chan_rel]. exists h1, g, (rv_smeta v).
@@ -396,27 +476,34 @@ Proof.
     split; [rewrite <- Est; apply (hview_frame _ _ _ _ _ F1); [notin | exact Vs]|].
     split; [apply (hview_frame _ _ _ _ _ F1); [notin | exact Vsm]|].
     split; [rewrite <- Est; exact Hsmc|].
-    destruct F1 as [F1 _]. rewrite F1 by notin. exact Ve.
+    split; [destruct F1 as [F1 _]; rewrite F1 by notin; exact Ve | exact Hvr].
   - intros c' E. injection E as <-. apply (chan_inv_mono n); [lia | exact Hinv].
 Qed.
 
-Lemma step_publish U n cf rs m ch key po nonce now_ :
+Lemma parse_add_supp3 top epoch r : (top < 18446744073709551616)%N -> r = "version" \/ r = "key_exists" \/ r = "key_not_found" ->
+  parse_add_result (RArr [RInt (Z.of_N top); RBulk epoch; RBulk r]) = MUpd top epoch true r None.
+Proof.
+  intros H Hr. unfold parse_add_result. cbn [as_arr List.length Nat.ltb Nat.leb nth as_u64 to_str].
+  rewrite Z.mod_small by lia. rewrite N2Z.id. destruct Hr as [-> | [-> | ->]]; reflexivity.
+Qed.
+
+Lemma step_publish_plain U n cf rs m ch key po nonce now_ :
   cfg_ok cf = true -> keys_ok U -> In ch U -> R U n rs m -> (Z.of_N n < mc_size cf)%Z ->
-  popts_ok key po = true -> nonce_ok nonce = true ->
+  popts_core key po = true -> mp_idem po = "" -> nonce_ok nonce = true ->
   step_goal U n cf rs m (MPublish ch key po nonce now_).
 Proof.
-  intros Hcf HK Hin HR Hn Hpo Hno.
+  intros Hcf HK Hin HR Hn Hpo Hidem Hno.
   destruct (cfg_ok_fields cf Hcf) as (size & sttl & -> & Hsize & Hsttl). cbn [mc_size] in Hn.
   pose proof (R_clear _ _ _ _ HR) as HR0. set (rs0 := clear_outbox rs) in *.
-  destruct (pre_state U n rs0 m ch nonce HR0 Hin Hno) as (v & g & Hviews & Hmeta & Est & Hsmc & Estr & Hg & Hgi & Hinv).
+  destruct (pre_state U n rs0 m ch nonce HR0 Hin Hno) as (v & g & Hviews & Hmeta & Est & Hsmc & Estr & Hg & Hgi & Hvr & Hinv).
   set (c0 := c0_of m ch nonce) in *.
-  pose proof Hinv as (Hep & Htop & Hcontig & Hents).
+  pose proof Hinv as (Hep & Htop & Hcontig & Hents & Hvbd).
   pose proof (contigT_length _ _ _ Hcontig) as Hlen.
   assert (Hglen : List.length g = List.length (ch_items c0)) by (rewrite <- Hg; rewrite map_length; reflexivity).
-  pose proof Hpo as Hpo'. unfold popts_ok in Hpo'.
-  apply andb_true_iff in Hpo' as [Hpo' Hkeyopts]. apply andb_true_iff in Hpo' as [Hpo' Hsc].
-  apply andb_true_iff in Hpo' as [Hidem Hver]. apply N.eqb_eq in Hver. apply String.eqb_eq in Hidem. apply Z.leb_le in Hsc.
-  destruct (hub_add_gen (mkMC 3 0 size sttl 0 false) m ch key po nonce eq_refl Hver) as (m1 & Hch1 & Hadd).
+  pose proof Hpo as Hpo'. unfold popts_core in Hpo'.
+  apply andb_true_iff in Hpo' as [Hpo' Hkeyopts]. apply andb_true_iff in Hpo' as [Hver Hsc].
+  apply N.ltb_lt in Hver. apply Z.leb_le in Hsc.
+  destruct (hub_add_gen (mkMC 3 0 size sttl 0 false) m ch key po nonce eq_refl) as (m1 & Hch1 & Hid1 & Hnw1 & Hadd).
   { fold c0. cbn [mc_size]. lia. }
   fold c0 in Hch1, Hadd.
   assert (Htb : (ch_top c0 + 1 < BOUND)%N) by (unfold C18Stream.BOUND; lia).
@@ -427,15 +514,16 @@ Proof.
   unfold step_goal. unfold rm_step. fold rs0. unfold rm_publish.
   cbn [is_ephemeral mc_mode N.eqb Pos.eqb andb]. cbv iota.
   unfold publish_keys, publish_args. cbn [is_ephemeral has_stream mc_mode mc_keyttl mc_size mc_sttl mc_mttl mc_ordered N.eqb Pos.eqb].
-  rewrite Hidem, Hver. cbn [String.eqb andb negb Z.ltb Z.compare N.ltb N.compare orb]. unfold idem_expire. cbn [String.eqb].
+  rewrite Hidem. cbn [String.eqb andb negb Z.ltb Z.compare orb]. unfold idem_expire. cbn [String.eqb].
   change (millis 0) with "0". rewrite (zdec_nonneg size) by lia.
   cbn [ms_add map_shallow].
   cbn [mm_step]. unfold mm_publish. cbn [is_ephemeral mc_mode N.eqb Pos.eqb andb]. rewrite Hidem. cbn [String.eqb].
   destruct key as [|kc key].
   - (* unkeyed *)
-    cbn [String.eqb] in Hkeyopts. apply andb_true_iff in Hkeyopts as [Hmode Hexp]. apply String.eqb_eq in Hmode.
-    destruct (mp_exp po) eqn:Eexp; [discriminate|]. rewrite Hmode. unfold utoa.
-    cbn [String.eqb negb andb] in Hadd |- *. destruct Hadd as (m' & ver & vep & Hadd & Hch).
+    cbn [String.eqb] in Hkeyopts. apply andb_true_iff in Hkeyopts as [Hkeyopts Hexp]. apply andb_true_iff in Hkeyopts as [Hv0 Hmode].
+    apply String.eqb_eq in Hmode. apply N.eqb_eq in Hv0.
+    destruct (mp_exp po) eqn:Eexp; [discriminate|]. rewrite Hmode, Hv0. cbn [N.ltb N.compare]. unfold utoa.
+    cbn [String.eqb negb andb] in Hadd |- *. destruct Hadd as (m' & Hadd & Hch & Hid' & Hnw').
     rewrite core_unkeyed_eq.
     destruct (core_unkeyed_spec rs0 ch (pb "" (mp_data po) false (mp_score po)) (Z.to_N size) sttl nonce now_ v
                 (ch_epoch c0) (ch_top c0) (map (genc (ch_epoch c0)) g) Hviews Hmeta Hscond Htb Hszb Hsttl)
@@ -443,7 +531,7 @@ Proof.
     rewrite Hrun. rewrite parse_add_ok by (unfold C18Stream.BOUND in Htb; lia).
     rewrite Hadd. unfold touch_exp, idem_save. cbn [mc_keyttl Z.ltb Z.compare andb String.eqb].
     eexists. exists m'. eexists. split; [reflexivity|]. split; [reflexivity|].
-    eapply (R_update U n (n + 1) rs0 m _ m' ch _ HK Hin HR0); [lia | | exact Hch | |].
+    eapply (R_update U n (n + 1) rs0 m _ m' ch _ HK Hin HR0); [lia | | exact Hch | | | exact Hid' | exact Hnw'].
     + eapply frame_trans; [exact Hfr | apply frame_clear].
     + apply (chan_rel_frame st'); [intros; apply getk_clear_outbox|].
       unfold state_after. cbn [String.eqb].
@@ -452,7 +540,7 @@ Proof.
         try assumption; try reflexivity. lia.
     + intros c' E. injection E as <-. unfold chan_inv. cbn [ch_epoch ch_top ch_items ch_state].
       split; [assumption|]. split; [lia|]. split; [apply contigT_snoc; [assumption | reflexivity]|].
-      unfold state_after. cbn [String.eqb]. assumption.
+      unfold state_after. cbn [String.eqb]. split; assumption.
   - (* keyed *)
     cbn [String.eqb] in Hkeyopts.
     assert (Hexp : exp_ok (mp_exp po)).
@@ -461,15 +549,27 @@ Proof.
     cbn [String.eqb negb andb] in Hadd |- *.
     change (match mp_exp po with Some (eo, _) => utoa eo | None => "" end) with (exp_off (mp_exp po)).
     change (match mp_exp po with Some (_, ee) => ee | None => "" end) with (exp_epoch (mp_exp po)).
-    unfold utoa at 1. rewrite core_keyed2_eq.
-    pose proof (core_keyed2_spec rs0 ch kc key (pb (String kc key) (mp_data po) false (mp_score po)) (Z.to_N size) sttl nonce now_
+    change (if (0 <? mp_ver po)%N then utoa (mp_ver po) else "0") with (vstr (mp_ver po)).
+    rewrite andb_true_r.
+    change (if (0 <? mp_ver po)%N then "v:" ++ String kc key else "") with (vfld (mp_ver po) (String kc key)).
+    change (if (0 <? mp_ver po)%N then "ve:" ++ String kc key else "") with (vefld (mp_ver po) (String kc key)).
+    unfold utoa at 1. rewrite core_keyed3_eq.
+    pose proof (core_keyed3_spec rs0 ch kc key (pb (String kc key) (mp_data po) false (mp_score po)) (Z.to_N size) sttl nonce now_
                   (mp_delta po) v (ch_epoch c0) (ch_top c0) (map (genc (ch_epoch c0)) g) (ch_state c0) (mp_mode po) (mp_exp po)
-                  Hviews Hmeta Hscond Hwc Est Hents Htb Hszb Hsttl Hexp) as Hspec.
+                  (mp_ver po) (mp_vep po)
+                  Hviews Hmeta Hscond Hwc Est Hents Hvr Hvbd Hver Htb Hszb Hsttl Hexp) as Hspec.
     cbv zeta in Hspec.
+    destruct (ver_dec (mp_ver po) (mp_vep po) (sfind (String kc key) (ch_state c0))) eqn:Evd.
+    { (* suppressed by the version *)
+      destruct Hspec as (st1 & h1 & Hrun & Vm1 & Hh1 & F1).
+      rewrite Hrun, Hadd. rewrite parse_add_supp3 by (first [exact Htb64 | left; reflexivity]).
+      unfold touch_exp. cbn [mc_keyttl Z.ltb Z.compare andb].
+      eexists. exists m1. eexists. split; [reflexivity|]. split; [reflexivity|].
+      apply (R_after_suppress U n rs0 m st1 m1 ch nonce h1 v g); assumption. }
     destruct (km_decision (mp_mode po) (is_some (sfind (String kc key) (ch_state c0)))) as [r|] eqn:Ekm.
     { (* suppressed by the key mode *)
       destruct Hspec as (st1 & h1 & Hrun & Vm1 & Hh1 & F1).
-      rewrite Hrun, Hadd. rewrite parse_add_supp by (first [exact Htb64 | eapply km_decision_reason; eassumption]).
+      rewrite Hrun, Hadd. rewrite parse_add_supp3 by (first [exact Htb64 | right; eapply km_decision_reason; eassumption]).
       unfold touch_exp. cbn [mc_keyttl Z.ltb Z.compare andb].
       eexists. exists m1. eexists. split; [reflexivity|]. split; [reflexivity|].
       apply (R_after_suppress U n rs0 m st1 m1 ch nonce h1 v g); assumption. }
@@ -484,29 +584,37 @@ Proof.
       eexists. exists m1. eexists. split; [reflexivity|]. split; [reflexivity|].
       apply (R_after_suppress U n rs0 m st1 m1 ch nonce h1 v g); assumption. }
     (* accepted *)
-    destruct Hspec as (st' & mh' & hs' & Hrun & Hv' & Hh' & Hep' & Hfr).
-    destruct Hadd as (m' & ver & vep & Hadd & Hch).
+    destruct Hspec as (st' & mh' & Hrun & Hv' & Hh' & Hfr).
+    destruct Hadd as (m' & Hadd & Hch & Hid' & Hnw').
     rewrite Hrun, Hadd. rewrite parse_add_ok by (unfold C18Stream.BOUND in Htb; lia).
     unfold touch_exp, idem_save. cbn [mc_keyttl Z.ltb Z.compare andb String.eqb].
     eexists. exists m'. eexists. split; [reflexivity|]. split; [reflexivity|].
-    set (e' := mkME (ch_top c0 + 1) (mp_data po) (mp_score po) ver vep).
-    eapply (R_update U n (n + 1) rs0 m _ m' ch _ HK Hin HR0); [lia | | exact Hch | |].
+    set (cur := sfind (String kc key) (ch_state c0)) in *.
+    set (e' := mkME (ch_top c0 + 1) (mp_data po) (mp_score po) (ver_after (mp_ver po) cur) (vep_after (mp_ver po) (mp_vep po) cur)).
+    eapply (R_update U n (n + 1) rs0 m _ m' ch _ HK Hin HR0); [lia | | exact Hch | | | exact Hid' | exact Hnw'].
     + eapply frame_trans; [exact Hfr | apply frame_clear].
     + apply (chan_rel_frame st'); [intros; apply getk_clear_outbox|].
       unfold state_after. cbn [String.eqb].
       apply (chan_rel_after st' ch (ch_epoch c0) (ch_top c0) g mh'
                (Some (sput (String kc key) (state_value (Z.of_N (ch_top c0 + 1)) (ch_epoch c0) (pb (String kc key) (mp_data po) false (mp_score po)))
-                           (hash_or_empty (rv_state v)))) (Some hs') (ch_items c0) (sput (String kc key) e' (ch_state c0))
+                           (hash_or_empty (rv_state v))))
+               (Some (smeta_after_state (round53 (Z.of_N now_)) (ch_epoch c0)
+                        (smeta_after_ver (mp_ver po) (mp_vep po) (String kc key) (hash_or_empty (rv_smeta v)))))
+               (ch_items c0) (sput (String kc key) e' (ch_state c0))
                ((ch_top c0 + 1)%N, String kc key, mp_data po, false) (mp_score po) (Z.of_N (Z.to_N size)));
         try assumption; try reflexivity; try lia.
       * rewrite state_view_some by apply sput_nonempty. rewrite Est, state_view_hash.
         rewrite state_value_small by (unfold C18Stream.BOUND in Htb; exact Htb).
         rewrite <- sput_enc_s. reflexivity.
-      * right. exists hs'. split; [reflexivity | assumption].
+      * right. eexists. split; [reflexivity | apply sfind_epoch_after_state].
+      * cbn [hash_or_empty]. unfold e', cur. apply ver_rel_publish. exact Hvr.
     + intros c' E. injection E as <-. unfold chan_inv. cbn [ch_epoch ch_top ch_items ch_state].
       split; [assumption|]. split; [lia|]. split; [apply contigT_snoc; [assumption | reflexivity]|].
-      unfold state_after. cbn [String.eqb]. intros kv Hkv. apply in_sput in Hkv as [->|Hkv]; [|apply Hents; assumption].
-      cbn [snd]. unfold entry_ok, e'. cbn [me_off me_score]. unfold C18Stream.BOUND in Htb. split; [exact Htb | assumption].
+      unfold state_after. cbn [String.eqb].
+      split; intros kv Hkv; apply in_sput in Hkv as [->|Hkv]; try (first [apply Hents | apply Hvbd]; assumption).
+      * cbn [snd]. unfold entry_ok, e'. cbn [me_off me_score]. unfold C18Stream.BOUND in Htb. split; [exact Htb | assumption].
+      * cbn [snd]. unfold e'. cbn [me_ver]. unfold ver_after. destruct (mp_ver po =? 0)%N; [|exact Hver].
+        destruct cur as [e|] eqn:Ek; [|lia]. apply (Hvbd (String kc key, e)). apply in_sfind. exact Ek.
 Qed.
 
 Lemma in_sdel {A} k (l : list (string * A)) kv : In kv (sdel k l) -> In kv l.
@@ -518,7 +626,7 @@ Qed.
 
 Lemma R_mono U n n' rs m : (n <= n')%N -> R U n rs m -> R U n' rs m.
 Proof.
-  intros Hn HR. constructor; [apply (R_chan _ _ _ _ HR)| |apply (R_cleanup _ _ _ _ HR)].
+  intros Hn HR. constructor; [apply (R_chan _ _ _ _ HR)| |apply (R_cleanup _ _ _ _ HR)|apply (R_now _ _ _ _ HR)|apply (R_cache _ _ _ _ HR)].
   intros ch c E. apply (chan_inv_mono n); [assumption | apply (R_inv _ _ _ _ HR ch c E)].
 Qed.
 
@@ -531,8 +639,8 @@ Proof.
   destruct (cfg_ok_fields cf Hcf) as (size & sttl & -> & Hsize & Hsttl). cbn [mc_size] in Hn.
   pose proof (R_clear _ _ _ _ HR) as HR0. set (rs0 := clear_outbox rs) in *.
   pose proof (R_chan _ _ _ _ HR0 ch Hin) as Hrel. rewrite Ec in Hrel.
-  destruct Hrel as (h & g & smh & Vm & Hh & Hg & Hgi & Vst & Vs & Vsm & Hsmc & Ve).
-  destruct (R_inv _ _ _ _ HR0 ch c Ec) as (Hep & Htop & Hcontig & Hents).
+  destruct Hrel as (h & g & smh & Vm & Hh & Hg & Hgi & Vst & Vs & Vsm & Hsmc & Ve & Hvr).
+  destruct (R_inv _ _ _ _ HR0 ch c Ec) as (Hep & Htop & Hcontig & Hents & Hvbd).
   pose proof (contigT_length _ _ _ Hcontig) as Hlen.
   assert (Hglen : List.length g = List.length (ch_items c)) by (rewrite <- Hg; rewrite map_length; reflexivity).
   set (v := mkRV (Some h) (state_view (ch_epoch c) (ch_state c)) smh (strm_view (ch_epoch c) g (ch_top c))).
@@ -588,9 +696,9 @@ Proof.
     { destruct Hsmc as [[_ X]|X]; [|exact X]. rewrite state_view_hash in X. destruct (ch_state c); [congruence | discriminate]. }
     destruct Hsm as (hs & -> & Heps).
     assert (Hscond : stream_cond v (ch_top c) (map (genc (ch_epoch c)) g)) by (apply (stream_cond_of v _ g _ (ch_items c)); [reflexivity | assumption | assumption]).
-    destruct (core_remove_present rs0 ch (String kc key) (pb (String kc key) "" true 0) (Z.to_N size) sttl nonce now_ v h
+    destruct (core_remove_present2 rs0 ch (String kc key) (pb (String kc key) "" true 0) (Z.to_N size) sttl nonce now_ v h
                 (map (enc_s (ch_epoch c)) (ch_state c)) hs (ch_epoch c) (ch_top c) (map (genc (ch_epoch c)) g)
-                Hviews eq_refl Hh) as (st' & mh' & hs' & Hrun & Hv' & Hh' & Hep' & Hfr);
+                Hviews eq_refl Hh) as (st' & mh' & Hrun & Hv' & Hh' & Hfr);
       [unfold v; cbn [rv_state]; apply state_view_some; assumption
       | rewrite sfind_enc_s, Ek; discriminate | reflexivity | assumption | assumption | assumption | assumption | assumption |].
     rewrite Hrun. rewrite parse_add_ok by (unfold C18Stream.BOUND in Htb; lia).
@@ -598,20 +706,21 @@ Proof.
     rewrite skipn_fit by (rewrite app_length; cbn [List.length]; lia).
     unfold idem_save. cbn [String.eqb].
     eexists. eexists. eexists. split; [reflexivity|]. split; [reflexivity|].
-    eapply (R_update U n (n + 1) rs0 m _ _ ch _ HK Hin HR0); [lia | | intros ch'; apply sfind_set_chan | |].
+    eapply (R_update U n (n + 1) rs0 m _ _ ch _ HK Hin HR0); [lia | | intros ch'; apply sfind_set_chan | | | reflexivity | reflexivity].
     + eapply frame_trans; [exact Hfr | apply frame_clear].
     + apply (chan_rel_frame st'); [intros; apply getk_clear_outbox|].
       apply (chan_rel_after st' ch (ch_epoch c) (ch_top c) g mh'
                (match sdel (String kc key) (map (enc_s (ch_epoch c)) (ch_state c)) with [] => None | h' => Some h' end)
-               (Some hs') (ch_items c) (sdel (String kc key) (ch_state c))
+               (Some (smeta_after_leave (String kc key) hs)) (ch_items c) (sdel (String kc key) (ch_state c))
                ((ch_top c + 1)%N, String kc key, "", true) 0%Z (Z.of_N (Z.to_N size)));
         try assumption; try reflexivity; try lia.
       * rewrite sdel_enc_s. destruct (sdel (String kc key) (ch_state c)); reflexivity.
-      * right. exists hs'. split; [reflexivity | assumption].
+      * right. eexists. split; [reflexivity|]. unfold smeta_after_leave. rewrite !sfind_sdel_other by (cbn [append]; discriminate). assumption.
       * unfold gent. rewrite Z2N.id by lia. lia.
+      * cbn [hash_or_empty]. apply ver_rel_remove. exact Hvr.
     + intros c' E. injection E as <-. unfold chan_inv. cbn [ch_epoch ch_top ch_items ch_state].
       split; [assumption|]. split; [lia|]. split; [apply contigT_snoc; [assumption | reflexivity]|].
-      intros kv Hkv. apply Hents. eapply in_sdel. eassumption.
+      split; intros kv Hkv; [apply Hents | apply Hvbd]; eapply in_sdel; eassumption.
   - (* the key is not there *)
     assert (Hwc : wipe_cond v (ch_epoch c)) by (apply wipe_cond_of; exact Hsmc).
     rewrite (core_remove_absent rs0 ch (String kc key) _ _ _ nonce now_ v h (ch_epoch c) (ch_top c) Hviews eq_refl Hh Hwc Hf)
@@ -639,14 +748,14 @@ Proof.
   intros Hm Hs Ht Hsm He. cbn [chan_rel new_chan ch_epoch ch_top ch_items ch_state].
   exists [("e", nonce)], [], None. split; [assumption|]. split; [apply C18StreamP.hash_ok_new|].
   split; [reflexivity|]. split; [intros x []|]. split; [exact Hs|]. split; [exact Ht|]. split; [exact Hsm|].
-  split; [left; split; reflexivity | assumption].
+  split; [left; split; reflexivity|]. split; [assumption | intros key; reflexivity].
 Qed.
 
 Lemma chan_inv_new n nonce : nonce_ok nonce = true -> chan_inv n (new_chan nonce).
 Proof.
   intros Hn. unfold chan_inv, new_chan. cbn [ch_epoch ch_top ch_items ch_state].
   split; [unfold nonce_ok in Hn; apply negb_true_iff in Hn; exact Hn|]. split; [apply N.le_0_l|].
-  split; [apply contigT_nil; reflexivity | intros kv []].
+  split; [apply contigT_nil; reflexivity|]. split; intros kv [].
 Qed.
 
 Lemma none_keys rs ch : chan_rel rs ch None ->
@@ -672,8 +781,8 @@ Proof.
   pose proof (R_chan _ _ _ _ HR0 ch Hin) as Hrel.
   unfold step_goal. unfold rm_step. fold rs0. cbn [mm_step].
   destruct (sfind ch (mm_chans m)) as [c|] eqn:Ec.
-  - destruct Hrel as (h & g & smh & Vm & Hh & Hg & Hgi & Vst & Vs & Vsm & Hsmc & Ve).
-    destruct (R_inv _ _ _ _ HR0 ch c Ec) as (Hep & Htop & Hcontig & Hents).
+  - destruct Hrel as (h & g & smh & Vm & Hh & Hg & Hgi & Vst & Vs & Vsm & Hsmc & Ve & Hvr).
+    destruct (R_inv _ _ _ _ HR0 ch c Ec) as (Hep & Htop & Hcontig & Hents & Hvbd).
     apply since_okb_sound in Hdom.
     rewrite (rm_read_stream_some (mkMC 3 0 size sttl 0 false) rs0 ch h (ch_epoch c) (ch_top c) g since limit reverse nonce eq_refl Vm Hh Vst Hgi)
       by (unfold C18Stream.BOUND; first [lia | assumption]).
@@ -691,7 +800,7 @@ Proof.
     assert (F : frame (chan_keys ch) rs0 (clear_outbox (delk rs1 (k_stream ch)))).
     { eapply frame_trans; [eapply frame_weaken; [|exact F1]; ck|].
       eapply frame_trans; [eapply frame_weaken; [|exact F2]; ck | apply frame_clear]. }
-    eapply (R_update U n (n + 1) rs0 m _ _ ch _ HK Hin HR0); [lia | exact F | intros ch'; apply sfind_set_chan | |].
+    eapply (R_update U n (n + 1) rs0 m _ _ ch _ HK Hin HR0); [lia | exact F | intros ch'; apply sfind_set_chan | | | reflexivity | reflexivity].
     + apply (chan_rel_frame (delk rs1 (k_stream ch))); [intros; apply getk_clear_outbox|].
       apply chan_rel_new.
       * apply (hview_frame _ _ _ _ _ F2); [notin | apply hview_setval].
@@ -718,8 +827,8 @@ Proof.
   pose proof (R_chan _ _ _ _ HR0 ch Hin) as Hrel.
   unfold step_goal. unfold rm_step. fold rs0. cbn [mm_step mc_ordered cf andb]. unfold rm_read_state.
   destruct (sfind ch (mm_chans m)) as [c|] eqn:Ec.
-  - destruct Hrel as (h & g & smh & Vm & Hh & Hg & Hgi & Vst & Vs & Vsm & Hsmc & Ve).
-    destruct (R_inv _ _ _ _ HR0 ch c Ec) as (Hep & Htop & Hcontig & Hents).
+  - destruct Hrel as (h & g & smh & Vm & Hh & Hg & Hgi & Vst & Vs & Vsm & Hsmc & Ve & Hvr).
+    destruct (R_inv _ _ _ _ HR0 ch c Ec) as (Hep & Htop & Hcontig & Hents & Hvbd).
     assert (Htb : (ch_top c < BOUND)%N) by (unfold C18Stream.BOUND; lia).
     rewrite (mm_read_state_some m ch c rev_ limit key nonce Ec).
     destruct (negb (String.eqb key "")) eqn:Ek.
@@ -752,7 +861,7 @@ Proof.
       assert (F : frame (chan_keys ch) rs0 (clear_outbox (delk rs1 (k_stream ch)))).
       { eapply frame_trans; [eapply frame_weaken; [|exact F1]; ck|].
         eapply frame_trans; [eapply frame_weaken; [|exact F2]; ck | apply frame_clear]. }
-      eapply (R_update U n (n + 1) rs0 m _ _ ch _ HK Hin HR0); [lia | exact F | intros ch'; apply sfind_set_chan | |].
+      eapply (R_update U n (n + 1) rs0 m _ _ ch _ HK Hin HR0); [lia | exact F | intros ch'; apply sfind_set_chan | | | reflexivity | reflexivity].
       * apply (chan_rel_frame (delk rs1 (k_stream ch))); [intros; apply getk_clear_outbox|].
         apply chan_rel_new.
         -- apply (hview_frame _ _ _ _ _ F2); [notin | apply hview_setval].
@@ -768,7 +877,7 @@ Proof.
       assert (F1 : frame [k_meta ch] rs0 rs1) by apply frame_setval.
       assert (F : frame (chan_keys ch) rs0 (clear_outbox rs1)).
       { eapply frame_trans; [eapply frame_weaken; [|exact F1]; ck | apply frame_clear]. }
-      eapply (R_update U n (n + 1) rs0 m _ _ ch _ HK Hin HR0); [lia | exact F | intros ch'; apply sfind_set_chan | |].
+      eapply (R_update U n (n + 1) rs0 m _ _ ch _ HK Hin HR0); [lia | exact F | intros ch'; apply sfind_set_chan | | | reflexivity | reflexivity].
       * apply (chan_rel_frame rs1); [intros; apply getk_clear_outbox|].
         destruct F1 as [F1 _].
         apply chan_rel_new; [apply hview_setval | | | |]; rewrite F1 by notin; assumption.
@@ -800,9 +909,9 @@ Proof.
 Qed.
 
 Lemma step_clear U n cf rs m ch :
-  cfg_ok cf = true -> keys_ok U -> In ch U -> R U n rs m -> step_goal U n cf rs m (MClear ch).
+  cfg_ok cf = true -> keys_ok U -> In ch U -> R U n rs m -> P = [] -> step_goal U n cf rs m (MClear ch).
 Proof.
-  intros Hcf HK Hin HR.
+  intros Hcf HK Hin HR HP.
   pose proof (R_clear _ _ _ _ HR) as HR0. set (rs0 := clear_outbox rs) in *.
   unfold step_goal. unfold rm_step. fold rs0. unfold rm_clear.
   set (ks := [k_stream ch; k_meta ch; k_state ch; k_order ch; k_expire ch; k_smeta ch]).
@@ -835,6 +944,8 @@ Proof.
   - intros ch' c'. unfold mm_clear. cbn [mm_chans]. rewrite sfind_sdel_chan. destruct (String.eqb ch' ch); [discriminate|].
     intros H. apply (chan_inv_mono n); [lia|]. apply (R_inv _ _ _ _ HR0 ch' c' H).
   - rewrite getk_clear_outbox. exact Hc1.
+  - apply (R_now _ _ _ _ HR0).
+  - intros ch' k Hk. rewrite HP in Hk. destruct Hk.
 Qed.
 
 (* ================= the whole run ================= *)
